@@ -168,3 +168,39 @@ def validate_against_real(make_dataset, batch_size, K, gen_seed, chooser_seed, w
         d = deep_diff(r, s)
         assert d is None, f"batch {i}: {d}"
     return len(real)
+
+
+def stub_validation(n_configs, seed):
+    """compare the stub with the real multi-process DataLoader on seeded configurations (stub validation only:
+    never decides a property).  Returns a dict for the evidence file."""
+    import random as _r
+    from . import env
+    env.import_kappadata()
+    import kappadata.transforms as kdt
+    from kappadata.wrappers import ModeWrapper, XTransformWrapper
+    from props.simdata import TensorDataset
+    rng = _r.Random(f"stubval/{seed}")
+    compared = 0
+    batches = 0
+    failures = []
+    for c in range(n_configs):
+        K = rng.choice([1, 2, 3])
+        bs = rng.randint(1, 4)
+        n = rng.randint(bs, 12)
+        gen_seed = rng.randint(0, 999)
+        tseed = rng.choice([None, 3])
+        amb = rng.randint(0, 999)
+
+        def make(n=n, tseed=tseed, amb=amb):
+            np.random.seed(amb)
+            t = kdt.KDComposeTransform([kdt.KDAdditiveGaussianNoise(std=1.0), kdt.KDRandomHorizontalFlip(),
+                                        kdt.KDRandomApply(p=0.5, transform=kdt.KDAdditiveUniformNoise())])
+            return ModeWrapper(XTransformWrapper(TensorDataset(n), t, seed=tseed), mode="index x")
+
+        try:
+            batches += validate_against_real(make, bs, K, gen_seed, chooser_seed=rng.randint(0, 999))
+            compared += 1
+        except AssertionError as e:
+            failures.append(dict(K=K, batch_size=bs, n=n, error=str(e)[:200]))
+    return dict(configs_compared_with_real_multiprocess_DataLoader=compared, batches_compared=batches, mismatches=len(failures),
+                examples=failures[:2])
